@@ -11,7 +11,8 @@ TECHNIQUE = "runtime reference-model monitor: independent interpreter of the scr
 RULE = ("random valid scripts (metadata with/without target/type/options, typed scalars, arrays, statements with every "
         "bracket style, positional/keyword/list arguments, Measure* operations, for-loops) rendered to text; the reference "
         "interpreter decides validity and domain from the text alone; non-trivial = at least 5 executed statements showing at "
-        "least 3 statement/argument features; distinct by SHA-1 of the text")
+        "least 3 statement/argument features; distinct by SHA-1 of the text"
+        '; a tenth of the scripts use a template parameter named like a variable declared later; a quarter of the loaded programs are edited in place and the same text is loaded again')
 BUDGET = {"quick": 4000, "thorough": 60000}
 MIN_NONTRIVIAL = {"quick": 300, "thorough": 3000}
 REQUIRED_FUNCTIONS = ["listener.py:BlackbirdListener.exitStatement", "auxiliary.py:_get_arguments", "auxiliary.py:_expression",
